@@ -4,6 +4,7 @@ The tokenizer equals the scanner specification on every text (`C16_tokenize_eq_s
 skips a `White_Space` character and a whole `//` comment (terminated by `\n`, or by the end of the input)
 without producing a token, resuming right after them.
 -/
+import KikiVerif.Proofs.Shift
 import KikiVerif.Spec.Lex
 import KikiVerif.Proofs.Tokenize
 
@@ -78,9 +79,25 @@ theorem C16_trailing_comment (body : Str) (i : Nat) (h : ∀ c ∈ body, c ≠ '
   rw [e1]
   exact scanFrom_done rfl
 
+/-- **the scanner is translation invariant**: the same characters scanned at another byte offset give the same
+tokens with every position moved by the difference (same lexical error, moved likewise) — so the amount of
+layout before a point influences what follows only through positions -/
+theorem C16_translation_invariant (cs : Str) (i d : Nat) :
+    scanFrom cs (i + d) = Spec.shiftRes d (scanFrom cs i) :=
+  Spec.scanFrom_shift cs.length cs i d (Nat.le_refl _)
+
+/-- leading whitespace — any of the 25 `White_Space` characters, any amount, at any offset — does not change the
+kinds and payloads of the tokens that follow -/
+theorem C16_leading_whitespace (ws cs : Str) (i j : Nat) (h : ∀ c ∈ ws, isWhitespace c = true) :
+    (match scanFrom (ws ++ cs) i with | .ok ts => some (ts.map Spec.erase) | _ => none) =
+    (match scanFrom cs j with | .ok ts => some (ts.map Spec.erase) | _ => none) :=
+  Spec.leading_whitespace_irrelevant ws cs i j h
+
 end KikiVerif.C16
 
 #print axioms KikiVerif.C16.C16_skip_whitespace
 #print axioms KikiVerif.C16.C16_tokenize_eq_spec
 #print axioms KikiVerif.C16.C16_skip_comment
 #print axioms KikiVerif.C16.C16_trailing_comment
+#print axioms KikiVerif.C16.C16_translation_invariant
+#print axioms KikiVerif.C16.C16_leading_whitespace
